@@ -7,6 +7,7 @@ from .hist import HistoryProp
 from .c07 import gfact, CONSTS
 
 E = 'e0'
+KEYWORDS = ['class', 'del', 'in', 'is', 'pass', 'not', 'assert', 'lambda', 'def', 'if', 'import', 'global', 'yield', 'return', 'or', 'and', 'else']
 PREDS = [('p', 1), ('p', 2), ('q', 1), ('r', 0), ('q', 2), ('ext', 1), ('p_1', 1), ('p_1', 0), ('q_n', 1)]
 CFG = gen.with_cfg(control=frozenset(['cut', ';', 'ite']), library=False, min_clauses=1, max_clauses=5, max_body=3,
                    preds=PREDS, undefined_calls=True, odd=False, eq_goals=True)
@@ -20,7 +21,7 @@ class C08(HistoryProp):
     title = 'Call resolution: facts first, exact arity, load order, late binding'
     technique = 'model-based (stateful) property testing: generated load/register/assert/clear histories vs. a list-of-definitions model executed by the reference interpreter'
     rule = ('histories of 6-25 operations on one engine: load(script, overwrite on/off) with scripts drawn per history '
-            'from a family over p/1, p/2, q/1, q/2, r/0, ext/1, p_1/0, p_1/1, q_n/1, wide/10-11 (cuts, calls to predicates defined in other scripts or '
+            'from a family over p/1, p/2, q/1, q/2, r/0, ext/1, p_1/0, p_1/1, q_n/1, wide/10-11, predicates named like Python keywords (cuts, calls to predicates defined in other scripts or '
             'registered later, undefined predicates); loads that fail (syntax error appended to the source; NameError at '
             'module level after the definitions); register_function with inferred, explicit and variadic arity (exact '
             'and variadic for one name; only for keys without a definition); assert_fact; clear; calls opened and left suspended across later loads and registrations; after every step '
@@ -40,6 +41,7 @@ class C08(HistoryProp):
     def decode(self, src):
         ops = [['engine', E]]
         scripts = []
+        kwnames = set()
         for _ in range(2 + src.n(3)):
             preds, clauses = gen.gen_program(src, CFG)
             if src.n(4) == 3:
@@ -48,10 +50,33 @@ class C08(HistoryProp):
                 row = tuple(('i', i) if i else src.pick(CONSTS[:3]) for i in range(n))
                 clauses = list(clauses) + [(('f', 'wide', row), ('true',)),
                                            (('f', 'p', (('v', 'W0'),)), ('call', ('f', 'wide', (('v', 'W0'),) + tuple(('v', 'W%d' % i) for i in range(1, n)))))]
+            if src.n(4) == 2:
+                # predicates named like Python keywords (a ported program ships its own not/1, assert/1, del/3, class/2)
+                kw = [src.pick(KEYWORDS) for _ in range(2)]
+                clauses = list(clauses) + [(('f', kw[0], (src.pick(CONSTS[:3]),)), ('true',)),
+                                           (('f', kw[1], (('v', 'K0'), ('v', 'K1'))), (',', ('call', ('f', kw[0], (('v', 'K0'),))), ('call', ('f', '=', (('v', 'K1'), ('a', kw[0])))))),
+                                           (('f', 'p', (('v', 'K0'),)), ('call', ('f', kw[1], (('v', 'K0'), ('v', 'K2')))))]
+                kwnames.update(kw)
             scripts.append(clauses)
+        route = 'string'
+        if src.n(4) == 1:
+            # the scripts arrive as files (one path per engine, rewritten for each load); a second version of a script that
+            # differs from the first in its constants only (same length of text)
+            route = 'file'
+            ren = {'a': 'b', 'b': 'c', 'c': 'a'}
+
+            def sw(t):
+                if isinstance(t, tuple) and len(t) == 2 and t[0] == 'a' and t[1] in ren:
+                    return ('a', ren[t[1]])
+                if isinstance(t, tuple):
+                    return tuple(sw(x) for x in t)
+                if isinstance(t, list):
+                    return [sw(x) for x in t]
+                return t
+            scripts.append(sw(list(scripts[src.n(len(scripts))])))
         defined = set()      # keys with a compiled or registered definition
         variadic = set()
-        names = ['p', 'q', 'r', 'ext', 'p_1', 'q_n']
+        names = ['p', 'q', 'r', 'ext', 'p_1', 'q_n'] + sorted(kwnames)
         open_q = []
         qid = 0
 
@@ -119,6 +144,8 @@ class C08(HistoryProp):
             ops.append(['step', q])
             ops.append(['step', q])
             ops.append(['close', q])
+        if route == 'file':
+            return {'ops': ops, 'load_route': 'file'}
         return {'ops': ops}
 
     def classify(self, case, ops, robs, ref):
